@@ -344,7 +344,7 @@ class Ctx:
     def apply(self, fname, args, ressort=ValSort):
         """uninterpreted function application on atoms / symbolic ints"""
         from .values import Sym, SymInt
-        key = (fname,) + tuple(a.i if type(a) is Sym else a for a in args)
+        key = (fname,) + tuple(a.i if isinstance(a, Sym) else (('i', a.e.get_id()) if type(a) is SymInt else a) for a in args)
         try:
             r = self.appmemo.get(key)
             if r is not None:
@@ -531,7 +531,7 @@ class ReplayCtx:
 
 def _cls_of(a):
     from .values import CVal
-    if isinstance(a, CVal):
+    if isinstance(a, CVal) or hasattr(a, 'tag'):
         return a.tag
     if isinstance(a, int):
         return a
